@@ -43,6 +43,10 @@ def classify(case, i, m, s):
 def run(chk):
     chk.coverage["trusted_base"] = [
         "Coq 8.16.1 kernel + vm_compute",
+        "translator/tr_gridsearch.py + translator/rsparse.py (the InputField::to_str table, the field GridSearchPlugin reads and removes, "
+        "the recursion-guard text, its error exits and the constructor MultiSet::from compiled to coq/Gen/GridSearchConsts.v on every run; "
+        "fails closed; coq/Props/GenGridSearch.v proves GS.grid_key and MS.from equal to them); the loops of process and MultiSet::next "
+        "stay hand-modelled",
         "hand-written models coq/Model/MultiSet.v, coq/Model/GridSearch.v (tied by the correspondence streams of this run)",
         "serde_json Value/Map semantics as written in coq/Base/Json.v (insertion-ordered objects with unique keys; "
         "insert = replace in place or append; object equality ignores key order)",
@@ -55,7 +59,17 @@ def run(chk):
         "the grid section is an object whose strings do not contain the text grid_search (otherwise the plugin rejects the query)",
         "every array-valued field of the section has at least one option (otherwise the plugin rejects the query)",
         "scalar_under_key / object_merged: stated for the last writer of a name (later fields win a name clash)"]
-    chk.proofs(extra_targets=["Model/GridSearchRun.vo"])
+    # Gen/GridSearchConsts.v: the InputField::to_str table, the field the plugin reads / removes, the recursion-guard text, the error
+    # exits and MultiSet::from are regenerated from the Rust source; Props/GenGridSearch.v proves the models equal to them
+    gres = vf.run_translators(which=["gridsearch"]).get("gridsearch", {"ok": False, "msg": "translator module tr_gridsearch.py missing"})
+    chk.coverage.setdefault("translator", {})["gridsearch"] = {k: gres.get(k) for k in ("ok", "msg", "digest", "files", "changed")}
+    if not gres.get("ok"):
+        chk.violation("broken-correspondence", "translator", {"translator": "tr_gridsearch", "error": gres.get("msg")}, gres.get("msg"),
+                      "plugin/input/{input_field,input_json_extensions}.rs, grid_search/plugin.rs and util/multiset.rs have the shape the "
+                      "translator knows (fail closed)",
+                      detail="coq/Gen/GridSearchConsts.v could not be regenerated; the previous definitions (if any) are used below",
+                      found=False, key="translator-gridsearch")
+    chk.proofs(extra_targets=["Model/GridSearchRun.vo"], extra_props=["Props/GenGridSearch.v"])
     binp = vf.build_harness("c17")
     # a replay file names its stream: a MultiSet case is replayed on stream mset only, a query on grid + gridset
     replay_stream = None
